@@ -6,19 +6,21 @@ directory (L21_REPO / L21_WORK / L21_EVID), so /repo itself and /verif/evidence 
 entry: `git apply` in the worker's worktree, run every claimed check, `git checkout -- .`.  Results go where the
 sequential tools put them: seeded/*/meta.json (detected_by), benign/*/meta.json (alarms_now), benign_small/RESULTS.json.
 
-usage: par_recheck.py <seeded|benign|benign_small|all> [workers=4]        (worktrees are removed at the end)
+usage: par_recheck.py <seeded|benign|benign_small|all> [workers=4] [name prefix]   (worktrees are removed at the end)
 """
 import sys, os, subprocess, json, glob, shutil, threading, queue
 
 which = sys.argv[1] if len(sys.argv) > 1 else "all"
 K = int(sys.argv[2]) if len(sys.argv) > 2 else 4
-ROOT = "/tmp/par"
+PREFIX = sys.argv[3] if len(sys.argv) > 3 else ""   # only entries whose name starts with this
+ROOT = os.environ.get("PAR_ROOT", "/tmp/par")
 claimed = [c["property_id"] for c in json.load(open("/verif/MANIFEST.json"))["checks"]]
 corpora = ["seeded", "benign_small", "benign"] if which == "all" else [which]
 jobs = queue.Queue()
 for c in corpora:
     for p in sorted(glob.glob("/verif/%s/*/patch.diff" % c)):
-        jobs.put((c, os.path.basename(os.path.dirname(p)), p))
+        if os.path.basename(os.path.dirname(p)).startswith(PREFIX):
+            jobs.put((c, os.path.basename(os.path.dirname(p)), p))
 total = jobs.qsize()
 results = {}
 lock = threading.Lock()
@@ -75,7 +77,14 @@ for (corpus, name), out in sorted(results.items()):
         json.dump(m, open(d + "/meta.json", "w"), indent=1)
     else:
         small[name] = {k: v["reports"][:4] for k, v in out.items() if not k.startswith("_")}
-if small:
+if small and PREFIX and os.path.exists("/verif/benign_small/RESULTS.json"):
+    old = json.load(open("/verif/benign_small/RESULTS.json"))
+    alarms = {k: v for k, v in old.get("alarms", {}).items() if not k.startswith(PREFIX)}
+    alarms.update({k: v for k, v in small.items() if v})
+    n_all = len(glob.glob("/verif/benign_small/*/patch.diff"))
+    json.dump({"edits": n_all, "raising_an_alarm": len(alarms), "alarms": alarms}, open("/verif/benign_small/RESULTS.json", "w"), indent=1)
+    print("small benign edits (prefix %s) raising an alarm: %d of %d %s" % (PREFIX, len([1 for v in small.values() if v]), len(small), sorted(k for k, v in small.items() if v)))
+elif small:
     bad = {k: v for k, v in small.items() if v}
     json.dump({"edits": len(small), "raising_an_alarm": len(bad), "alarms": bad}, open("/verif/benign_small/RESULTS.json", "w"), indent=1)
     print("small benign edits raising an alarm: %d of %d %s" % (len(bad), len(small), sorted(bad)))
